@@ -163,10 +163,22 @@ class LeanSide:
         prefix = (ns.group(1) + ".") if ns else ""
         return [prefix + m for m in re.findall(r"^\s*(?:protected\s+|private\s+)?theorem\s+([^\s:({\[]+)", text, re.M)]
 
+    def own_files(self):
+        """Props/<pid>.lean, Drivers/<pid>.lean and every HydroVerif file they import, transitively"""
+        todo = [self.props_file, LEAN / "Drivers" / f"{self.pid}.lean"]
+        seen = []
+        while todo:
+            f = todo.pop()
+            if f in seen or not f.exists():
+                continue
+            seen.append(f)
+            for m in re.findall(r"^import\s+(HydroVerif[\w.]*)", f.read_text(), re.M):
+                todo.append(LEAN / (m.replace(".", "/") + ".lean"))
+        return seen
+
     def forbidden_hits(self):
         hits = []
-        files = list((LEAN / "HydroVerif").rglob("*.lean")) + list((LEAN / "Drivers").glob("*.lean"))
-        for f in files:
+        for f in self.own_files():
             text = strip_lean_comments(f.read_text())
             for m in FORBIDDEN.finditer(text):
                 hits.append(f"{f.relative_to(LEAN)}: {m.group(0).strip()}")
